@@ -122,9 +122,11 @@ Accept(ev) ==
        \/ ThrowOk(ev, post)
        \/ FaultOk(ev, post)
 
+IsFloatIns(ev) == "flt" \in DOMAIN ev
 PropOf(ev) == IF "fault" \in DOMAIN ev /\ ev.fault = 1 THEN <<"C19">>
               ELSE IF "exc" \in DOMAIN ev /\ ev.exc = "unicode_error" THEN <<"C16", "C18">>
               ELSE IF "kind" \in DOMAIN ev /\ ev.kind = "wide" /\ WideThrows(ev) THEN <<"C16", "C18">>
+              ELSE IF IsFloatIns(ev) THEN <<"C16", "C13">>      \* (string_stream insertion of a float is the %g rendering: C13)
               ELSE <<"C16">>
 Rej(ev, what) == [line |-> l, i |-> ev.i, k |-> 0, what |-> what, cls |-> ev.e, props |-> PropOf(ev), kf |-> "none"]
 
@@ -159,7 +161,7 @@ TAbnormal ==
     /\ Ev.e = "Abnormal"
     /\ book' = BookAdd(book, << [line |-> l, i |-> Ev.i, k |-> 0, what |-> "abnormal",
                                  props |-> IF "fault" \in DOMAIN Ev.during /\ Ev.during.fault = 1
-                                           THEN <<"C19">> ELSE <<"C16">>,
+                                           THEN <<"C19">> ELSE IF IsFloatIns(Ev.during) THEN <<"C16", "C13">> ELSE <<"C16">>,
                                  kf |-> "none"] >>)
     /\ skipping' = TRUE
     /\ UNCHANGED <<pool, plat, hadFault, nsteps, nfault, nconv>>
